@@ -755,6 +755,15 @@ def tab_start(a, env, pick=0, scen=None):
     cls = SRKTableV2 if fl == "ahab2" else SRKTable
     if origin == "new":
         return cls()
+    if origin == "rot":  # the table the front end builds from the key list and HOLDS: read through the front end from then on
+        from spsdk.utils.crypto.rot import Rot
+
+        fams = families()[("srk_table_ahab_v2" if fl == "ahab2" else "srk_table_ahab", "rot")]
+        ins = []
+        for s in init:
+            with open(kfile(kname(s["k"]), "pub.pem"), "rb") as fh:
+                ins.append(fh.read())
+        return RotHeld(Rot(fams[pick % len(fams)], "latest", keys_or_certs=ins))
     if origin == "parsed":
         return cls.parse(image)
     pubs = [(PublicKey.load(kfile(kname(s["k"]), "pub.pem")), 0x80 if s["ca"] else 0) for s in init]
@@ -763,9 +772,71 @@ def tab_start(a, env, pick=0, scen=None):
     return cls([SRKRecord.create_from_key(k, srk_flags=f) for k, f in pubs])
 
 
+class RotHeld:
+    """The front end object Rot(family, keys) and the SRK table it holds (public attributes rot_obj.srk)."""
+
+    def __init__(self, rot):
+        self.rot = rot
+        self.table = rot.rot_obj.srk
+
+
+_pub = {}
+
+
+def pub_of(k):
+    """The public key object of a pool key (loaded once; the objects are only read)."""
+    from spsdk.crypto.keys import PublicKey
+
+    if kname(k) not in _pub:
+        _pub[kname(k)] = PublicKey.load(kfile(kname(k), "pub.pem"))
+    return _pub[kname(k)]
+
+
+def ahab_record(fl, k, flags, i):
+    from spsdk.image.ahab.ahab_srk import SRKRecord, SRKRecordV2
+
+    if fl == "ahab2":
+        return SRKRecordV2.create_from_key(pub_of(k), srk_flags=flags, srk_id=i)
+    return SRKRecord.create_from_key(pub_of(k), srk_flags=flags)
+
+
+def tab_change(fl, obj, a):
+    """An in-place change of an SRK table through the public fields of the table and of its records."""
+    kind, i = a["a"], a["i"] - 1
+    if fl == "hab":
+        from spsdk.image.secret import SrkItem, SrkItemRSA
+
+        if kind == "SetCa":
+            for j in (range(len(obj)) if i < 0 else [i]):
+                obj[j].flag = 0x80 if a["ca"] else 0
+        else:  # Rekey: the key material of the entry, the entry object and its flag stay
+            new = SrkItem.from_certificate(tab_cert(a["k"], "crt"))
+            if isinstance(obj[i], SrkItemRSA):
+                obj[i].modulus, obj[i].exponent = new.modulus, new.exponent
+            else:
+                obj[i].x_coordinate, obj[i].y_coordinate = new.x_coordinate, new.y_coordinate
+        return
+    recs = obj.srk_records
+    if kind == "SetCa":
+        for rec in recs:
+            rec.srk_flags = (rec.srk_flags & ~0x80) | (0x80 if a["ca"] else 0)
+    elif kind == "SetSlot":  # the entry of the record list is replaced by a new record (key rotation)
+        recs[i] = ahab_record(fl, a["k"], 0x80 if a["form"] == "pubca" else 0, i)
+    else:  # Rekey: the record object stays, its key material is that of the new key
+        new = ahab_record(fl, a["k"], recs[i].srk_flags, i)
+        new.update_fields()
+        recs[i].src_key, recs[i].crypto_params = new.src_key, new.crypto_params
+        if fl == "ahab2":
+            recs[i].srk_data = new.srk_data
+    obj.update_fields()  # what SPSDK does with a table before it uses it (lengths, the data hashes of new version-2 records)
+
+
 def tab_write(fl, obj, a):
     """One call of the builder's public incremental API."""
     kind = a["a"]
+    obj = getattr(obj, "table", obj)  # the front end's table is changed, the front end is read
+    if kind in ("Rekey", "SetCa") or (kind == "SetSlot" and fl in ("ahab", "ahab2")):
+        return tab_change(fl, obj, a)
     if kind == "SetAll":
         return  # the list is handed over with the export itself (ComputeT)
     if kind == "ClearT":
@@ -835,6 +906,10 @@ def tab_observe(fl, obj, a):
         o["tbl"] = try_obs(obj.export)
         o["fuses"] = try_obs(lambda: b"".join(struct.pack("<I", obj.get_fuse(i)) for i in range(8)))
         o["parsed"] = try_obs(lambda: SrkTable.parse(obj.export()).export_fuses())
+    elif isinstance(obj, RotHeld):  # the front end hands out the value and the table of the SRK table it holds
+        o["got"] = try_obs(obj.rot.calculate_hash)
+        o["tbl"] = try_obs(obj.rot.export)
+        o["parsed"] = try_obs(lambda: type(obj.table).parse(obj.rot.export()).compute_srk_hash())
     else:
         def value():
             obj.update_fields()
@@ -882,6 +957,8 @@ def tab_class(evs, upto):
             filled = set(range(1, len(e["init"]) + 1))
             if e["fl"] in ("pfr1", "pfr21") and e["init"]:  # the page held the value of another list: its key type is part of the class
                 origin += f"-held-{e['init'][0]['k']['cls']}x{len(e['init'])}"
+        elif e["a"] in ("Rekey", "SetCa"):
+            tags.add("rekey" if e["a"] == "Rekey" else "ca-flag")
         elif e["a"] == "SetSlot":
             if e["i"] in filled:
                 tags.add("replace")
@@ -915,6 +992,10 @@ def tab_short(e):
         return f"add_certificate(#{e['k']['id']})"
     if a == "SetAll":
         return f"keys=({','.join(str(k['id']) for k in e['keys'])})"
+    if a == "Rekey":
+        return f"rekey[{e['i'] - 1}]={e['k']['cls']}#{e['k']['id']}"
+    if a == "SetCa":
+        return f"ca[{'all' if e['i'] == 0 else e['i'] - 1}]={int(e['ca'])}"
     return {"ClearT": "clear()", "ComputeT": "read"}.get(a, a)
 
 
@@ -978,8 +1059,28 @@ def canary_tab(behs):
     if not (len(first["want"]) < len(held_value) <= width) or not any(held_value[len(first["want"]):]):
         raise Machinery("history canary: the held value is not longer than the new one")
     first["got"]["v"] = first["want"] + list((held_value + bytes(width - len(held_value)))[len(first["want"]):])
-    return [good, bad1, bad2, bad3, bad4, good_h, bad5], {"canary-tab-shift": "value", "canary-tab-lostwrite": "term", "canary-tab-refused": "refused",
-                                                          "canary-tab-table": "table", "canary-tab-held-stale": "value"}
+    # a change history (table complete, READ, one record re-keyed in place, read again): the documented values are accepted; an object that
+    # answers the second read with what it computed for the first - while the table it exports is the new one - is rejected
+    c = next(x for x in behs if x["scen"]["fl"] == "ahab" and x["scen"]["chg"] == 1 and x["scen"]["origin"] == "new" and x["scen"]["cls"] == "p256"
+             and x["scen"]["ca"] == "none" and x["hist"][-2]["a"] == "Rekey")
+    cevs = []
+    for a in c["hist"]:
+        e = {k: v for k, v in a.items() if k not in ("term", "table")}
+        if a["a"] == "ComputeT":
+            want, table = ev(a["term"], env), ev(a["table"], env)
+            e.update({"term": a["term"], "table_term": a["table"], "want": list(want), "table_want": list(table), "got": val(want), "tbl": val(table),
+                      "fuses": NA, "parsed": val(want), "f": EMPTY_F, "fieldLen": 0})
+        cevs.append(e)
+    good_c = {"id": "canary-tab-change-good", "ev": cevs}
+    reads = [e for e in cevs if e["a"] == "ComputeT"]
+    if len(reads) != 2 or reads[0]["want"] == reads[1]["want"]:
+        raise Machinery("history canary: the change history does not read twice / the change does not show")
+    bad6 = json.loads(json.dumps(good_c))
+    bad6["id"] = "canary-tab-change-stale"
+    bad6["ev"][-1]["got"] = val(bytes(reads[0]["want"]))
+    return [good, bad1, bad2, bad3, bad4, good_h, bad5, good_c, bad6], {"canary-tab-shift": "value", "canary-tab-lostwrite": "term", "canary-tab-refused": "refused",
+                                                                        "canary-tab-table": "table", "canary-tab-held-stale": "value",
+                                                                        "canary-tab-change-stale": "value"}
 
 
 # ------------------------------------------------------------------ key files: write, read by path, rewrite, read again
@@ -1192,7 +1293,7 @@ def finding_key(t, matched, evname, why):
     return f"C03/{evname}/{why}"
 
 
-TAB_EVENTS = ("StartT", "SetSlot", "AppendSlot", "ClearT", "AddCertificate", "SetAll", "ComputeT")
+TAB_EVENTS = ("StartT", "SetSlot", "AppendSlot", "ClearT", "AddCertificate", "SetAll", "Rekey", "SetCa", "ComputeT")
 
 
 def lean_trace(t):
@@ -1297,6 +1398,22 @@ def tab_lane(menu, quick):
             need |= {(d["fam"], c, h, o) for c in cls for h in cls for o in ("cfg", "parsed")}
     if not need or need - held or not any(c != h for _, c, h, _ in need):
         raise Machinery(f"history lane incomplete: {len(need - held)} of {len(need)} (family, key type, held key type, origin) missing, e.g. {sorted(need - held)[:3]}")
+    # ... and the change histories: per table kind and per way the object came to exist a history that READS, changes in place (an entry
+    # replaced / a record re-keyed / the CA flag) and READS AGAIN - no two writes of a change history without a read between them
+    seen = set()
+    for b in tabs:
+        if b["scen"]["chg"]:
+            names = [e["a"] for e in b["hist"]]
+            at = [i for i, x in enumerate(names) if x in ("SetSlot", "Rekey", "SetCa")][-b["scen"]["chg"]:]   # the last chg writes are the changes
+            if len(at) != b["scen"]["chg"] or any(names[i - 1] != "ComputeT" or names[i + 1:i + 2] != ["ComputeT"] for i in at):
+                raise Machinery(f"history lane: a change history that does not read before and after every change: {names}")
+            seen |= {(b["scen"]["fl"], b["scen"]["origin"], names[i]) for i in at}
+    want_chg = {(fl, o, k) for fls, os_, ks in ((("rkht1",), ("new", "keys", "parsed"), ("SetSlot",)), (("cb1",), ("new", "parsed"), ("SetSlot",)),
+                                              (("hab",), ("new", "parsed"), ("SetSlot", "Rekey", "SetCa")),
+                                              (("ahab", "ahab2"), ("new", "keys", "parsed", "rot"), ("SetSlot", "Rekey", "SetCa")))
+                for fl in fls for o in os_ for k in ks}
+    if want_chg - seen:
+        raise Machinery(f"history lane incomplete: change histories missing for {sorted(want_chg - seen)[:4]}")
     traces = [replay_tab((5000000 + i, b)) for i, b in enumerate(tabs)]
     t2 = time.time()
     canaries, _ = canary_tab(tabs)
@@ -1368,7 +1485,7 @@ def run(tier):
                                    require_actions=("LCompute", "LComputeFor", "LWriteFile", "LReadByPath", "LBuild21", "LExport21", "LParse21", "LSetUserData",
                                                     "LSetConstraints", "LBuild1", "LExport1", "LParse1", "LSetImageLength"))),
            bg("mctab", lambda: tlc.mc("C03", "RotMC", "RotMC_tab.cfg", workers=2, heap="4g", timeout=900, env={"C03_DEVICES": "RotMC_devices.ndjson"},
-                                      require_actions=("LStartT", "LSetSlot", "LAppendSlot", "LClearT", "LAddCertificate", "LSetAll", "LComputeT"))),
+                                      require_actions=("LStartT", "LSetSlot", "LAppendSlot", "LClearT", "LAddCertificate", "LSetAll", "LRekey", "LSetCa", "LComputeT"))),
            bg("asbuilt", lambda: tlc.run("C03", "RotMC", "RotMC_asbuilt.cfg", workers=1, heap="4g", timeout=900, env={"C03_DEVICES": "RotMC_devices.ndjson"}))]
     if not quick:  # longer histories over the small menus (the full menus are exhausted to depth 3)
         ths.append(bg("cb21-deep", lambda: gen("cb21", "small", 5, workers=2, timeout=1500)))
@@ -1428,7 +1545,7 @@ def run(tier):
     for t in traces:
         if any(e.get("got", {}).get("k") == "val" for e in t["ev"]):
             v.nontrivial(sha([[{k: x for k, x in e.items() if k in ("a", "c", "fam", "rev", "keys", "used", "isk", "udLen", "cons", "len", "img", "build", "f", "k", "enc", "rot", "files", "path", "ver", "flags",
-                                                                 "fl", "origin", "init", "cert", "i", "form", "index")}
+                                                                 "fl", "origin", "init", "cert", "i", "form", "index", "ca")}
                                 for e in t["ev"]]]))
     by_id = {t["id"]: t for t in traces}
     for i in (3, len(jobs) // 2, 1000000, 5000000 + len(tabs) // 3, 3000005, 4000000 + len(devcases) // 2, 2000003):
@@ -1470,7 +1587,8 @@ def run(tier):
     v.extra["canary"] = ("good observation accepted; one flipped bit of the value, the value of another key order, a refusal: rejected; device entry point: "
                          + ("the value of ANOTHER revision's RoT type and a case typed by another revision: rejected" if dev_pair else "one flipped bit: rejected")
                          + "; construction history (spec-generated, independently evaluated): good accepted; the value / table of a builder that inserts instead of "
-                           "replacing, a lost write, a refused write, one flipped bit of the table: rejected")
+                           "replacing, a lost write, a refused write, one flipped bit of the table: rejected; change history (read, one record re-keyed in place, read): "
+                           "good accepted, the second read answered with the value of the first: rejected")
     v.traces(len(traces))
     v.extra["tv_states"] = tv_states[0]
     for tid, (matched, length, evname, why) in rej.items():
@@ -1511,7 +1629,11 @@ def run(tier):
         f"every one of them is in the exported block and in the parsed object), {len(behs['files'])} key-file rewrite; "
         f"{len(tabs)} construction histories of ONE table object (RKHTv1.set_rkh and CertBlockV1.set_root_key_hash / add_certificate: every order of filling 1..4 slots by "
         f"index, every single replacement at every position{'' if quick else ' and every pair of replacements (RKHTv1)'}, objects that start empty / from a key list / parsed, value read on the way; HAB SrkTable "
-        "append / table[i] = item; AHAB SRKTable and SRKTableV2 add_record / clear and refill; one CMPA page object exported with key list A, B, A again - a new page, and for EVERY family with a ROTKH field x every key type the field takes x every key type "
+        "append / table[i] = item; AHAB SRKTable and SRKTableV2 add_record / clear and refill; "
+        f"{sum(1 for b in tabs if b['scen']['chg'])} CHANGE histories of these five table kinds - the table is complete (built by calls / from a key list / parsed / held by the front end "
+        "Rot(family, keys)), is READ, and is then changed in place: an entry replaced (set_rkh / set_root_key_hash / table[i] = item / srk_records[i] = record), the key of an SRK record replaced, "
+        f"the CA flag of one / of all SRK records changed - every sequence of {'one such change, two on the main lines' if quick else 'up to two such changes, three on the main lines'}, "
+        "the value read after EVERY step; one CMPA page object exported with key list A, B, A again - a new page, and for EVERY family with a ROTKH field x every key type the field takes x every key type "
         "of the held list a page that HELD the value of another key list before (also of the other hash width), loaded from a configuration that carries the ROTKH or parsed "
         "from a binary that does): value, table, fuse words, exported and re-parsed object = the documented "
         "construction over the FINAL contents; "
@@ -1535,6 +1657,11 @@ def run(tier):
         "for AHAB); a v1 table with a hole (the configuration front end refuses holes) and an AHAB table with fewer than four records are not asserted - so an "
         "update_fields() on an incomplete AHAB table (which freezes its length field) is not generated; RKHTv21 / CertBlockV21 / the RoT meta of debug credentials have "
         "no incremental builder; exporting a v1 block whose certificate key is not in the table is not asserted",
+        "in-place changes of an SRK table go through the public fields of the table and of its records (HAB: table[i] = item, SrkItem.flag / .modulus / .exponent / "
+        ".x_coordinate / .y_coordinate; AHAB: SRKTable.srk_records[i] = record, SRKRecord.srk_flags / .crypto_params / .src_key / .srk_data) followed by update_fields(); "
+        "a re-keyed record keeps its type (algorithm, key size) and its flag; what is asserted is that the value the object hands out after the change is the documented "
+        "construction over the key list it holds and exports then (value, exported table and the value of the re-parsed table agree) - how SPSDK gets there (recompute, "
+        "cache with invalidation) is not",
         "PFR: the ROTKH field is asserted for export(keys=...) - the key list is handed over; export(rotkh=<value computed elsewhere>) takes a VALUE, not keys, and is not "
         "driven; a v1 header build number is exercised below 2^31, the flags word as four bytes (bit 31 only in the thorough tier)",
     ]
@@ -1611,7 +1738,7 @@ def replay(path):
 ARGS = {"Build21": ("keys", "used", "isk", "iskKey", "udLen", "cons"), "SetUserData": ("len",), "SetConstraints": ("cons",),
         "Build1": ("keys", "used", "img", "build", "ver", "flags"), "SetImageLength": ("img",), "WriteFile": ("f", "k", "enc"),
         "ReadByPath": ("rot", "files", "path", "used"), "StartT": ("fl", "origin", "init", "cert"), "SetSlot": ("i", "k", "form"),
-        "AppendSlot": ("k", "form"), "AddCertificate": ("k",), "SetAll": ("keys",), "ComputeT": ("keys", "index")}
+        "AppendSlot": ("k", "form"), "AddCertificate": ("k",), "SetAll": ("keys",), "Rekey": ("i", "k"), "SetCa": ("i", "ca"), "ComputeT": ("keys", "index")}
 
 
 def strip(e):
